@@ -29,11 +29,20 @@ theorem loopRead_np (k limit f : Nat) (c : Cur) : loopRead k limit f c ≠ .pani
       split <;> simp_all
     · simp
 
+/-- the `usize` subtraction does not underflow when the subtrahend is not larger -/
+theorem usub_some {a b : Nat} (h : b ≤ a) : usub a b = some (a - b) := by simp [usub, h]
+
+theorem usub_none {a b : Nat} (h : usub a b = none) : a < b := by
+  unfold usub at h; split at h <;> simp at h; omega
+
+/-- every site of `Capability::parse` that can panic (the `0..len-1` of the Multisession arms, an
+explicit `usub` in the model) is unreachable: the `len == 0` test precedes it -/
 theorem capContent_np (typ len start : Nat) (c : Cur) : capContent typ len start c ≠ .panic := by
   unfold capContent
   have hu8 := Cur.u8_np
   have hadv := Cur.advance_np
   have hloop := loopRead_np
+  have hsub : len ≠ 0 → usub len 1 = some (len - 1) := fun h => usub_some (by omega)
   split <;> np_auto
 
 theorem capParse_np (c : Cur) : capParse c ≠ .panic := by
@@ -74,6 +83,57 @@ theorem headerParse_np (c : Cur) : headerParse c ≠ .panic := by
   have hu16 := Cur.u16_np
   np_auto
 
+theorem Cur.u8_pos {c c' : Cur} {v : Nat} (h : c.u8 = .ok (v, c')) : c'.pos = c.pos + 1 := by
+  unfold Cur.u8 at h; split at h <;> simp at h; rw [← h.2]
+
+theorem Cur.u16_pos {c c' : Cur} {v : Nat} (h : c.u16 = .ok (v, c')) : c'.pos = c.pos + 2 := by
+  unfold Cur.u16 at h; split at h <;> simp at h; rw [← h.2]
+
+theorem Cur.advance_pos {c c' : Cur} {n : Nat} (h : c.advance n = .ok c') : c'.pos = c.pos + n := by
+  unfold Cur.advance at h; split at h <;> simp at h; rw [← h]
+
+theorem Cur.seek_pos {c c' : Cur} {n : Nat} (h : c.seek n = .ok c') : c'.pos = n := by
+  unfold Cur.seek at h; split at h <;> simp at h; rw [← h]
+
+/-- `Parameter::parse` leaves the parser after the parameter: it never moves backwards -/
+theorem paramParse_pos {c c' : Cur} {len : Nat} (h : paramParse c = .ok (c', len)) : c.pos ≤ c'.pos := by
+  unfold paramParse at h
+  dsimp only at h
+  repeat' (split at h)
+  all_goals (try (simp at h))
+  rename_i hs _ c2 ha
+  have h1 := Cur.seek_pos hs
+  have h2 := Cur.advance_pos ha
+  rw [← h.1]; omega
+
+theorem paramLoop_pos (f left : Nat) (c c' : Cur) (h : paramLoop f left c = .ok c') : c.pos ≤ c'.pos := by
+  induction f generalizing left c with
+  | zero => simp [paramLoop] at h; rw [h]; exact Nat.le_refl _
+  | succ f ih =>
+    unfold paramLoop at h
+    split at h
+    · simp at h; rw [h]; exact Nat.le_refl _
+    · split at h
+      · rename_i c1 len hp
+        split at h
+        · exact Nat.le_trans (paramParse_pos hp) (ih _ _ h)
+        · simp at h
+      · simp at h
+      · simp at h
+
+theorem headerParse_pos {c c' : Cur} {l : Nat} (h : headerParse c = .ok (l, c')) : c'.pos = c.pos + 19 := by
+  unfold headerParse at h
+  repeat' (split at h)
+  all_goals (try (simp at h))
+  rename_i h16 _ _ c3 h8
+  have a1 := Cur.u16_pos h16
+  have a2 := Cur.u8_pos h8
+  simp at a1
+  rw [← h.2]; omega
+
+/-- `OpenMessage::parse` never panics: its one panic-capable site, the `usize` subtraction
+`end - pos` (open.rs:310, `usub` in the model), is unreachable because every step of the function
+moves the parser forwards (`headerParse_pos`, `Cur.advance_pos`, `Cur.u8_pos`, `paramLoop_pos`) -/
 theorem openParseCur_np (c : Cur) : openParseCur c ≠ .panic := by
   unfold openParseCur
   have hu8 := Cur.u8_np
@@ -81,7 +141,17 @@ theorem openParseCur_np (c : Cur) : openParseCur c ≠ .panic := by
   have hseek := Cur.seek_np
   have hh := headerParse_np
   have hp := paramLoop_np
-  np_auto
+  dsimp only
+  repeat' (split)
+  all_goals (try (simp_all; done))
+  -- the `usub` = none branch
+  rename_i _ _ _ hhp _ _ ha _ _ _ hu _ _ _ hpl _ hsub
+  have h1 := headerParse_pos hhp
+  have h2 := Cur.advance_pos ha
+  have h3 := Cur.u8_pos hu
+  have h4 := paramLoop_pos _ _ _ _ hpl
+  have h5 := usub_none hsub
+  omega
 
 /-- `OpenMessage::parse` never panics, for every byte string -/
 theorem openParse_np (bs : Bytes) : openParse bs ≠ .panic := by
